@@ -193,6 +193,95 @@ Proof.
 Qed.
 
 (* ================================================================================================
+   1b. Comments: Display prints "// " + trimmed text + LF; the lexer reads that back as a comment whose
+       text is " " + trimmed text
+   ================================================================================================ *)
+(* the printed form without its final line feed: what stands on the line *)
+Definition shc (k : kind) : text :=
+  match k with Comment s => [47; 47; 32] ++ trim s | _ => sh k end.
+
+(* the kind the printed form lexes to *)
+Definition canon (k : kind) : kind :=
+  match k with Comment s => Comment (32 :: trim s) | _ => k end.
+
+Lemma shc_nice k : nice k = true -> shc k = sh k.
+Proof. intros H. destruct k; try reflexivity. unfold nice in H. cbn in H. rewrite andb_false_r in H. discriminate H. Qed.
+
+Lemma canon_nice k : nice k = true -> canon k = k.
+Proof. intros H. destruct k; try reflexivity. unfold nice in H. cbn in H. rewrite andb_false_r in H. discriminate H. Qed.
+
+Lemma sh_comment s : sh (Comment s) = shc (Comment s) ++ [10].
+Proof. cbn [show_kind shc]. rewrite <- !app_assoc. reflexivity. Qed.
+
+Lemma valid_cases k : valid_kind k = true -> nice k = true \/ exists s, k = Comment s /\ forallb not_nl s = true.
+Proof.
+  intros H. destruct k; try (left; unfold nice; rewrite H; reflexivity). right. exists s. split; [reflexivity | exact H].
+Qed.
+
+Lemma trim_start_in c s : In c (trim_start s) -> In c s.
+Proof.
+  induction s as [|x s IH]; [intros []|]. cbn [trim_start]. destruct (is_unicode_ws x); [intros H; right; apply IH; exact H | intros H; exact H].
+Qed.
+
+Lemma trim_in c s : In c (trim s) -> In c s.
+Proof.
+  unfold trim. intros H. apply in_rev in H. apply trim_start_in in H. apply in_rev in H. apply trim_start_in in H. exact H.
+Qed.
+
+Lemma trim_start_head s : match trim_start s with [] => True | x :: _ => is_unicode_ws x = false end.
+Proof.
+  induction s as [|x s IH]; [exact I|]. cbn [trim_start]. destruct (is_unicode_ws x) eqn:E; [exact IH | exact E].
+Qed.
+
+Lemma trim_last s : trim s = [] \/ is_unicode_ws (last (trim s) 0) = false.
+Proof.
+  unfold trim. pose proof (trim_start_head (rev (trim_start s))) as H.
+  destruct (trim_start (rev (trim_start s))) as [|x r]; [left; reflexivity|]. right.
+  cbn [rev]. rewrite last_app_single. exact H.
+Qed.
+
+Lemma trim_plain s : forallb not_nl s = true -> forallb plain_char (trim s) = true.
+Proof.
+  intros H. apply forallb_forall. intros c Hc. apply trim_in in Hc. rewrite forallb_forall in H. exact (H c Hc).
+Qed.
+
+Lemma last_cons_ne {A} (x : A) l d : l <> [] -> last (x :: l) d = last l d.
+Proof. destruct l; [congruence | reflexivity]. Qed.
+
+Lemma shc_plain k : valid_kind k = true -> forallb plain_char (shc k) = true /\ last (shc k) 0 <> 13.
+Proof.
+  intros Hv. destruct (valid_cases k Hv) as [Hn|(s & -> & Hs)].
+  - rewrite (shc_nice k Hn). apply show_plain. exact Hn.
+  - cbn [shc]. split.
+    + rewrite forallb_app. apply andb_true_iff. split; [reflexivity | exact (trim_plain s Hs)].
+    + destruct (trim_last s) as [E|E].
+      * rewrite E. cbn. discriminate.
+      * destruct (trim s) as [|x r] eqn:Et; [cbn; discriminate|].
+        change ([47; 47; 32] ++ x :: r) with (47 :: 47 :: 32 :: x :: r).
+        rewrite !last_cons_ne by discriminate. intros E13. rewrite E13 in E. discriminate E.
+Qed.
+
+Lemma shc_nonempty k : valid_kind k = true -> shc k <> [].
+Proof.
+  intros Hv. destruct (valid_cases k Hv) as [Hn|(s & -> & Hs)].
+  - rewrite (shc_nice k Hn). apply show_nonempty. exact Hn.
+  - discriminate.
+Qed.
+
+(* what is printed for a valid kind is a lexeme of the canonical kind *)
+Lemma show_lexeme_canon k : valid_kind k = true -> Lexeme (canon k) (sh k).
+Proof.
+  intros Hv. destruct (valid_cases k Hv) as [Hn|(s & -> & Hs)].
+  - rewrite (canon_nice k Hn). apply show_lexeme. exact Hn.
+  - cbn [canon show_kind]. apply (Lx_comment (32 :: trim s)). cbn [forallb]. exact (trim_plain s Hs).
+Qed.
+
+Lemma show_agree_valid k : valid_kind k = true -> agree1 (spelling k) (sh k).
+Proof.
+  intros Hv. destruct (valid_cases k Hv) as [Hn|(s & -> & Hs)]; [apply show_agree; exact Hn | reflexivity].
+Qed.
+
+(* ================================================================================================
    2. Woven texts
    ================================================================================================ *)
 (* the characters the printers put between tokens: blank, tab, line feed *)
@@ -206,21 +295,24 @@ Qed.
 Lemma gap_ws g : forallb gapc g = true -> forallb is_ws g = true.
 Proof. apply forallb_impl. exact gapc_ws. Qed.
 
-(* a gap between the kinds a and b: gap characters only, and non-empty where the two spellings would merge *)
+Definition starts_nl (g : text) : bool := match g with c :: _ => c =? 10 | [] => false end.
+
+(* a gap between the kinds a and b: gap characters only; non-empty where the two spellings would merge; behind a
+   comment it begins with the line feed that ends the comment *)
 Definition sepok (a b : kind) (g : text) : bool :=
-  forallb gapc g && (negb (is_nil g) || negb (needs_sep a b)).
+  forallb gapc g && (if is_comment a then starts_nl g else negb (is_nil g) || negb (needs_sep a b)).
 
-Lemma sepok_ne a b g : forallb gapc g = true -> g <> [] -> sepok a b g = true.
-Proof. intros H Hne. unfold sepok. rewrite H. destruct g; [congruence | reflexivity]. Qed.
+Lemma sepok_ne a b g : is_comment a = false -> forallb gapc g = true -> g <> [] -> sepok a b g = true.
+Proof. intros Ha H Hne. unfold sepok. rewrite H, Ha. destruct g; [congruence | reflexivity]. Qed.
 
-Lemma sepok_glue a b : needs_sep a b = false -> sepok a b [] = true.
-Proof. intros H. unfold sepok. rewrite H. reflexivity. Qed.
+Lemma sepok_glue a b : is_comment a = false -> needs_sep a b = false -> sepok a b [] = true.
+Proof. intros Ha H. unfold sepok. rewrite H, Ha. reflexivity. Qed.
 
 (* spelling, gap, spelling, ..., spelling *)
 Fixpoint iw (ks : list kind) (gs : list text) : text :=
   match ks, gs with
-  | k :: ks', g :: gs' => sh k ++ g ++ iw ks' gs'
-  | k :: _, [] => sh k
+  | k :: ks', g :: gs' => shc k ++ g ++ iw ks' gs'
+  | k :: _, [] => shc k
   | [], _ => []
   end.
 
@@ -231,13 +323,13 @@ Fixpoint inner_ok (ks : list kind) (gs : list text) : bool :=
   | _, _ => false
   end.
 
-(* [Wv ks t]: t is the spellings of ks (all valid, no comment) in order, starting with the first and ending
-   with the last spelling, with an admissible gap between any two neighbours *)
-Definition Wv (ks : list kind) (t : text) : Prop :=
-  exists gs, t = iw ks gs /\ inner_ok ks gs = true /\ forallb nice ks = true.
-
 Definition hdk (ks : list kind) : kind := hd Eof ks.
 Definition lastk (ks : list kind) : kind := last ks Eof.
+
+(* [Wv ks t]: t is the printed forms of ks (all valid) in order, starting with the first and ending with the last one,
+   which is not a comment, with an admissible gap between any two neighbours; a comment is followed by its line feed *)
+Definition Wv (ks : list kind) (t : text) : Prop :=
+  exists gs, t = iw ks gs /\ inner_ok ks gs = true /\ forallb valid_kind ks = true /\ is_comment (lastk ks) = false.
 
 Lemma inner_ok_length ks : forall gs, inner_ok ks gs = true -> length ks = S (length gs).
 Proof.
@@ -251,11 +343,20 @@ Qed.
 Lemma Wv_nonempty ks t : Wv ks t -> ks <> [].
 Proof. intros (gs & _ & H & _). destruct ks; [discriminate H | discriminate]. Qed.
 
-Lemma Wv_nice ks t : Wv ks t -> forallb nice ks = true.
-Proof. intros (gs & _ & _ & H). exact H. Qed.
+Lemma Wv_valid ks t : Wv ks t -> forallb valid_kind ks = true.
+Proof. intros (gs & _ & _ & H & _). exact H. Qed.
+
+Lemma Wv_last ks t : Wv ks t -> is_comment (lastk ks) = false.
+Proof. intros (gs & _ & _ & _ & H). exact H. Qed.
+
+Lemma nice_not_comment k : nice k = true -> is_comment k = false.
+Proof. unfold nice. intros H. apply andb_true_iff in H. destruct H as [_ H]. apply negb_true_iff in H. exact H. Qed.
 
 Lemma Wv_one k : nice k = true -> Wv [k] (sh k).
-Proof. intros H. exists []. cbn [iw inner_ok forallb]. rewrite H. repeat split. Qed.
+Proof.
+  intros H. exists []. cbn [iw inner_ok forallb]. rewrite (shc_nice k H), (nice_valid k H). repeat split.
+  apply nice_not_comment. exact H.
+Qed.
 
 Lemma iw_app ks1 : forall gs1 ks2 g gs2, length ks1 = S (length gs1) -> ks2 <> [] ->
   iw (ks1 ++ ks2) (gs1 ++ g :: gs2) = iw ks1 gs1 ++ g ++ iw ks2 gs2.
@@ -281,57 +382,110 @@ Proof.
     rewrite Ha. cbn [andb]. apply (IH gs1 ks2 g gs2 Hb H2). exact Hs.
 Qed.
 
+Lemma last_app_ne {A} (a b : list A) d : b <> [] -> last (a ++ b) d = last b d.
+Proof.
+  intros Hb. induction a as [|x a IH]; [reflexivity|]. cbn [app]. destruct (a ++ b) as [|y r] eqn:E.
+  - apply app_eq_nil in E. destruct E as [_ E]. contradiction.
+  - change (last (y :: r) d = last b d). exact IH.
+Qed.
+
 Theorem Wv_app ks1 ks2 t1 g t2 :
   Wv ks1 t1 -> Wv ks2 t2 -> sepok (lastk ks1) (hdk ks2) g = true -> Wv (ks1 ++ ks2) (t1 ++ g ++ t2).
 Proof.
-  intros (gs1 & -> & H1 & N1) (gs2 & -> & H2 & N2) Hs. exists (gs1 ++ g :: gs2). split; [|split].
-  - symmetry. apply iw_app; [apply inner_ok_length; exact H1 | destruct ks2; [discriminate H2 | discriminate]].
+  intros (gs1 & -> & H1 & N1 & L1) (gs2 & -> & H2 & N2 & L2) Hs.
+  assert (Hne : ks2 <> []) by (destruct ks2; [discriminate H2 | discriminate]).
+  exists (gs1 ++ g :: gs2). split; [|split; [|split]].
+  - symmetry. apply iw_app; [apply inner_ok_length; exact H1 | exact Hne].
   - apply inner_ok_app; assumption.
   - rewrite forallb_app, N1, N2. reflexivity.
+  - unfold lastk in *. rewrite last_app_ne by exact Hne. exact L2.
 Qed.
 
 Lemma Wv_app0 ks1 ks2 t1 t2 :
   Wv ks1 t1 -> Wv ks2 t2 -> needs_sep (lastk ks1) (hdk ks2) = false -> Wv (ks1 ++ ks2) (t1 ++ t2).
-Proof. intros H1 H2 Hs. apply (Wv_app ks1 ks2 t1 [] t2 H1 H2). apply sepok_glue. exact Hs. Qed.
+Proof. intros H1 H2 Hs. apply (Wv_app ks1 ks2 t1 [] t2 H1 H2). apply sepok_glue; [apply (Wv_last ks1 t1 H1) | exact Hs]. Qed.
 
-Lemma Wv_cons k ks g t : nice k = true -> Wv ks t -> sepok k (hdk ks) g = true -> Wv (k :: ks) (sh k ++ g ++ t).
-Proof. intros Hk H Hs. apply (Wv_app [k] ks (sh k) g t); [apply Wv_one; exact Hk | exact H | exact Hs]. Qed.
-
-Lemma Wv_cons0 k ks t : nice k = true -> Wv ks t -> needs_sep k (hdk ks) = false -> Wv (k :: ks) (sh k ++ t).
-Proof. intros Hk H Hs. apply (Wv_cons k ks [] t Hk H). apply sepok_glue. exact Hs. Qed.
-
-Lemma Wv_snoc ks t g k : Wv ks t -> nice k = true -> sepok (lastk ks) k g = true -> Wv (ks ++ [k]) (t ++ g ++ sh k).
-Proof. intros H Hk Hs. apply (Wv_app ks [k] t g (sh k)); [exact H | apply Wv_one; exact Hk | exact Hs]. Qed.
-
-(* ---- to the gap lists of Proofs/RenderProofs.v ---- *)
-Lemma weave_iw ks : forall (g0 : text) (gs : list text) (gn : text), length ks = S (length gs) ->
-  weave (g0 :: gs ++ [gn]) (map sh ks) = g0 ++ iw ks gs ++ gn.
+(* a comment line in front of a woven text *)
+Lemma Wv_comment c ks g t :
+  valid_kind (Comment c) = true -> Wv ks t -> forallb gapc g = true ->
+  Wv (Comment c :: ks) (shc (Comment c) ++ (10 :: g) ++ t).
 Proof.
-  induction ks as [|k ks IH]; intros g0 gs gn Hl; [discriminate Hl|].
-  destruct gs as [|g gs].
-  - destruct ks; [|discriminate Hl]. cbn [map app weave iw]. reflexivity.
-  - cbn [length] in Hl. injection Hl as Hl. destruct ks as [|k' ks]; [discriminate Hl|].
-    change (weave (g0 :: (g :: gs) ++ [gn]) (map sh (k :: k' :: ks)))
-      with (g0 ++ sh k ++ weave (g :: gs ++ [gn]) (map sh (k' :: ks))).
-    rewrite (IH g gs gn Hl). change (iw (k :: k' :: ks) (g :: gs)) with (sh k ++ g ++ iw (k' :: ks) gs).
-    rewrite <- !app_assoc. reflexivity.
+  intros Hc (gs & -> & H & N & L) Hg. exists ((10 :: g) :: gs).
+  destruct ks as [|k' ks]; [discriminate H|]. split; [reflexivity|]. split; [|split].
+  - change (inner_ok (Comment c :: k' :: ks) ((10 :: g) :: gs)) with (sepok (Comment c) k' (10 :: g) && inner_ok (k' :: ks) gs).
+    rewrite H, andb_true_r. unfold sepok. cbn [is_comment starts_nl forallb]. rewrite Hg. reflexivity.
+  - change (forallb valid_kind (Comment c :: k' :: ks)) with (valid_kind (Comment c) && forallb valid_kind (k' :: ks)).
+    rewrite Hc, N. reflexivity.
+  - exact L.
+Qed.
+
+(* ---- to the gap lists of Proofs/RenderProofs.v: there the line feed belongs to the comment lexeme ---- *)
+Fixpoint lexgaps (ks : list kind) (gs : list text) : list text :=
+  match ks, gs with
+  | k :: ks', g :: gs' => (if is_comment k then tl g else g) :: lexgaps ks' gs'
+  | _, _ => []
+  end.
+
+Lemma sepok_comment_gap s b g : sepok (Comment s) b g = true -> g = 10 :: tl g /\ forallb gapc (tl g) = true.
+Proof.
+  unfold sepok. cbn [is_comment]. intros H. apply andb_true_iff in H. destruct H as [Hg Hs].
+  destruct g as [|c g]; [discriminate Hs|]. cbn [starts_nl] in Hs. apply N.eqb_eq in Hs. subst c.
+  cbn [tl forallb] in *. split; [reflexivity|]. apply andb_true_iff in Hg. exact (proj2 Hg).
+Qed.
+
+Lemma weave_iw ks : forall (g0 : text) (gs : list text) (gn : text),
+  inner_ok ks gs = true -> is_comment (lastk ks) = false ->
+  weave (g0 :: lexgaps ks gs ++ [gn]) (map sh ks) = g0 ++ iw ks gs ++ gn.
+Proof.
+  induction ks as [|k ks IH]; intros g0 gs gn H L; [discriminate H|].
+  destruct ks as [|k' ks].
+  - destruct gs; [|discriminate H]. cbn [lastk last] in L. cbn [lexgaps map app weave iw].
+    destruct k; try reflexivity. discriminate L.
+  - destruct gs as [|g gs]; [discriminate H|]. cbn [inner_ok] in H. apply andb_true_iff in H. destruct H as [Hs H].
+    assert (L' : is_comment (lastk (k' :: ks)) = false) by exact L.
+    change (weave (g0 :: lexgaps (k :: k' :: ks) (g :: gs) ++ [gn]) (map sh (k :: k' :: ks)))
+      with (g0 ++ sh k ++ weave ((if is_comment k then tl g else g) :: lexgaps (k' :: ks) gs ++ [gn]) (map sh (k' :: ks))).
+    rewrite (IH _ gs gn H L'). change (iw (k :: k' :: ks) (g :: gs)) with (shc k ++ g ++ iw (k' :: ks) gs).
+    destruct (is_comment k) eqn:Ec.
+    + destruct k; try discriminate Ec. destruct (sepok_comment_gap _ _ _ Hs) as [Eg _].
+      rewrite sh_comment. rewrite Eg at 2. rewrite <- !app_assoc. reflexivity.
+    + assert (E : shc k = sh k) by (destruct k; try reflexivity; discriminate Ec). rewrite E, <- !app_assoc. reflexivity.
+Qed.
+
+Lemma needs_sep_comment s b : valid_kind (Comment s) = true -> valid_kind b = true -> needs_sep (Comment s) b = false.
+Proof.
+  intros Hs Hb. unfold needs_sep. rewrite (spell_total b Hb). cbn [spell delimitedb].
+  destruct (spelling b); [reflexivity|].
+  change (47 :: 47 :: s ++ [10]) with ((47 :: 47 :: s) ++ [10]). rewrite last_app_single. reflexivity.
 Qed.
 
 Lemma gaps_okb_iw ks : forall (g0 : text) (gs : list text) (gn : text),
-  forallb is_ws g0 = true -> forallb is_ws gn = true -> inner_ok ks gs = true ->
-  gaps_okb ks (g0 :: gs ++ [gn]) = true.
+  forallb is_ws g0 = true -> forallb is_ws gn = true -> inner_ok ks gs = true -> forallb valid_kind ks = true ->
+  gaps_okb ks (g0 :: lexgaps ks gs ++ [gn]) = true /\ Forall (fun g => forallb is_ws g = true) (lexgaps ks gs).
 Proof.
-  induction ks as [|k ks IH]; intros g0 gs gn H0 Hn H; [discriminate H|].
+  induction ks as [|k ks IH]; intros g0 gs gn H0 Hn H Hv; [discriminate H|].
   destruct ks as [|k' ks].
-  - destruct gs; [|discriminate H]. cbn [app gaps_okb sep_okb]. rewrite H0, Hn.
-    destruct gn; reflexivity.
+  - destruct gs; [|discriminate H]. cbn [lexgaps app gaps_okb sep_okb]. rewrite H0, Hn.
+    split; [destruct gn; reflexivity | constructor].
   - destruct gs as [|g gs]; [discriminate H|]. cbn [inner_ok] in H. apply andb_true_iff in H. destruct H as [Hs H].
-    unfold sepok in Hs. apply andb_true_iff in Hs. destruct Hs as [Hg Hs].
-    change (gaps_okb (k :: k' :: ks) (g0 :: (g :: gs) ++ [gn]))
-      with (forallb is_ws g0 && sep_okb k (k' :: ks) (g :: gs ++ [gn]) && gaps_okb (k' :: ks) (g :: gs ++ [gn])).
-    rewrite H0. cbn [andb].
-    rewrite (IH g gs gn (gap_ws g Hg) Hn H), andb_true_r.
-    destruct g as [|c g]; [|reflexivity]. cbn [sep_okb]. cbn [is_nil negb orb] in Hs. exact Hs.
+    cbn [forallb] in Hv. apply andb_true_iff in Hv. destruct Hv as [Hk Hv].
+    assert (Hk' : valid_kind k' = true) by (cbn [forallb] in Hv; apply andb_true_iff in Hv; exact (proj1 Hv)).
+    set (g' := if is_comment k then tl g else g).
+    assert (Hg' : forallb gapc g' = true /\ (g' = [] -> needs_sep k k' = false)).
+    { unfold g'. destruct (is_comment k) eqn:Ec.
+      - destruct k; try discriminate Ec. destruct (sepok_comment_gap _ _ _ Hs) as [_ Hg]. split; [exact Hg|].
+        intros _. apply needs_sep_comment; assumption.
+      - unfold sepok in Hs. rewrite Ec in Hs. apply andb_true_iff in Hs. destruct Hs as [Hg Hs]. split; [exact Hg|].
+        intros ->. cbn [is_nil negb orb] in Hs. apply negb_true_iff in Hs. exact Hs. }
+    destruct Hg' as [Hg Hsep].
+    destruct (IH g' gs gn (gap_ws g' Hg) Hn H Hv) as [IH1 IH2].
+    change (lexgaps (k :: k' :: ks) (g :: gs)) with (g' :: lexgaps (k' :: ks) gs).
+    split; [|constructor; [apply gap_ws; exact Hg | exact IH2]].
+    change (gaps_okb (k :: k' :: ks) (g0 :: (g' :: lexgaps (k' :: ks) gs) ++ [gn]))
+      with (forallb is_ws g0 && sep_okb k (k' :: ks) (g' :: lexgaps (k' :: ks) gs ++ [gn])
+            && gaps_okb (k' :: ks) (g' :: lexgaps (k' :: ks) gs ++ [gn])).
+    apply andb_true_iff. split; [apply andb_true_iff; split; [exact H0|] | exact IH1].
+    destruct g' as [|c r]; [|reflexivity]. cbn [sep_okb]. rewrite (Hsep eq_refl). reflexivity.
 Qed.
 
 (* a woven text with a gap in front and a gap behind is a layout of its kinds in the sense of RenderProofs *)
@@ -340,51 +494,52 @@ Theorem Wv_layout ks t g0 gn :
   exists gaps, g0 ++ t ++ gn = weave gaps (map sh ks) /\ gaps_ok ks gaps /\
                hd [] gaps = g0 /\ last gaps [] = gn /\ Forall (fun g => forallb is_ws g = true) gaps.
 Proof.
-  intros (gs & -> & H & _) H0 Hn. exists (g0 :: gs ++ [gn]). split; [|split; [|split; [|split]]].
-  - symmetry. apply weave_iw. apply inner_ok_length. exact H.
-  - apply gaps_okb_iw; assumption.
+  intros (gs & -> & H & Hv & L) H0 Hn. exists (g0 :: lexgaps ks gs ++ [gn]).
+  destruct (gaps_okb_iw ks g0 gs gn H0 Hn H Hv) as [G1 G2]. split; [|split; [|split; [|split]]].
+  - symmetry. apply weave_iw; assumption.
+  - exact G1.
   - reflexivity.
-  - change (g0 :: gs ++ [gn]) with ((g0 :: gs) ++ [gn]). apply last_app_single.
-  - constructor; [exact H0|]. apply Forall_app. split; [|constructor; [exact Hn | constructor]].
-    clear H0 Hn. revert gs H. induction ks as [|k ks IH]; intros gs H; [discriminate H|].
-    destruct ks as [|k' ks]; destruct gs as [|g gs]; try discriminate H; [constructor|].
-    cbn [inner_ok] in H. apply andb_true_iff in H. destruct H as [Hs H]. unfold sepok in Hs.
-    apply andb_true_iff in Hs. destruct Hs as [Hg _]. constructor; [apply gap_ws; exact Hg | apply IH; exact H].
+  - change (g0 :: lexgaps ks gs ++ [gn]) with ((g0 :: lexgaps ks gs) ++ [gn]). apply last_app_single.
+  - constructor; [exact H0|]. apply Forall_app. split; [exact G2 | constructor; [exact Hn | constructor]].
 Qed.
 
 (* ================================================================================================
-   3. A layout of valid comment-free kinds in their printed form lexes back to these kinds
+   3. A layout of valid kinds in their printed form lexes back to these kinds (comments: to their canonical kinds)
    ================================================================================================ *)
-Definition show_ls (ks : list kind) : list (kind * text) := map (fun k => (k, sh k)) ks.
+Definition show_ls (ks : list kind) : list (kind * text) := map (fun k => (canon k, sh k)) ks.
 
-Lemma show_ls_fst ks : map fst (show_ls ks) = ks.
-Proof. unfold show_ls. rewrite map_map. cbn [fst]. apply map_id. Qed.
+Lemma show_ls_fst ks : map fst (show_ls ks) = map canon ks.
+Proof. unfold show_ls. rewrite map_map. reflexivity. Qed.
 
 Lemma show_ls_snd ks : map snd (show_ls ks) = map sh ks.
 Proof. unfold show_ls. rewrite map_map. reflexivity. Qed.
 
-Lemma show_ls_lexemes ks : forallb nice ks = true -> Forall (fun kl => Lexeme (fst kl) (snd kl)) (show_ls ks).
+Lemma show_ls_lexemes ks : forallb valid_kind ks = true -> Forall (fun kl => Lexeme (fst kl) (snd kl)) (show_ls ks).
 Proof.
   induction ks as [|k ks IH]; [constructor|]. cbn [forallb]. intros H. apply andb_true_iff in H. destruct H as [Hk Hks].
-  constructor; [cbn [fst snd]; apply show_lexeme; exact Hk | apply IH; exact Hks].
+  constructor; [cbn [fst snd]; apply show_lexeme_canon; exact Hk | apply IH; exact Hks].
 Qed.
 
-Lemma show_closed k : nice k = true -> closed_comment k (sh k).
-Proof. intros H. destruct k; try exact I. unfold nice in H. cbn in H. rewrite andb_false_r in H. discriminate H. Qed.
+Lemma show_closed k : valid_kind k = true -> closed_comment (canon k) (sh k).
+Proof.
+  intros H. destruct k; try exact I. cbn [canon closed_comment]. rewrite sh_comment. apply last_app_single.
+Qed.
 
 (* [Delimited] with the canonical spellings carries over to the printed forms *)
 Lemma delimited_show k k' :
-  nice k = true -> nice k' = true -> Delimited k (spelling k) (spelling k') -> Delimited k (sh k) (sh k').
+  valid_kind k = true -> valid_kind k' = true -> Delimited k (spelling k) (spelling k') -> Delimited (canon k) (sh k) (sh k').
 Proof.
   intros Hk Hk' HD.
-  assert (HD' : Delimited k (spelling k) (sh k')) by (eapply delimited_agree; [apply show_agree; exact Hk' | exact HD]).
-  destruct (show_vs_spelling k Hk) as [E|(v & a & -> & _ & _)].
-  - rewrite E. exact HD'.
-  - exact HD'.
+  assert (HD' : Delimited k (spelling k) (sh k')) by (eapply delimited_agree; [apply show_agree_valid; exact Hk' | exact HD]).
+  destruct (valid_cases k Hk) as [Hn|(s & -> & Hs)].
+  - rewrite (canon_nice k Hn). destruct (show_vs_spelling k Hn) as [E|(v & a & -> & _ & _)].
+    + rewrite E. exact HD'.
+    + exact HD'.
+  - cbn [canon Delimited]. destruct (sh k'); [exact I|]. rewrite sh_comment. apply last_app_single.
 Qed.
 
 Lemma show_separated ks : forall gaps,
-  forallb nice ks = true -> gaps_ok ks gaps ->
+  forallb valid_kind ks = true -> gaps_ok ks gaps ->
   length gaps = S (length ks) /\ Forall (fun g => forallb is_ws g = true) gaps /\ SeparatedOK (show_ls ks) gaps.
 Proof.
   unfold gaps_ok. induction ks as [|k ks IH]; intros gaps Hv H.
@@ -401,15 +556,15 @@ Proof.
     + cbn [follow]. destruct ks as [|k' ks]; [apply delimited_nil|]. cbn [map snd].
       cbn [forallb] in Hks. apply andb_true_iff in Hks as [Hk' _].
       apply negb_true_iff in H2. unfold needs_sep in H2.
-      rewrite (spell_total k (nice_valid k Hk)), (spell_total k' (nice_valid k' Hk')) in H2. apply negb_false_iff in H2.
+      rewrite (spell_total k Hk), (spell_total k' Hk') in H2. apply negb_false_iff in H2.
       apply delimited_show; [exact Hk | exact Hk' | now apply delimitedb_sound].
     + cbn [follow]. inversion Hw as [|? ? Hg2 _]; subst. cbn [forallb] in Hg2.
       apply andb_true_iff in Hg2 as [Hc _]. apply delimited_ws; [exact Hc | apply show_closed; exact Hk].
 Qed.
 
 Theorem show_layout_lexes ks gaps :
-  forallb nice ks = true -> gaps_ok ks gaps ->
-  exists toks, lex (weave gaps (map sh ks)) = Some toks /\ map tk toks = ks ++ [Eof] /\
+  forallb valid_kind ks = true -> gaps_ok ks gaps ->
+  exists toks, lex (weave gaps (map sh ks)) = Some toks /\ map tk toks = map canon ks ++ [Eof] /\
                Forall (fun x => terr x = []) toks.
 Proof.
   intros Hv Hg. destruct (show_separated ks gaps Hv Hg) as [Hl [Hw Hsep]].
@@ -418,6 +573,12 @@ Proof.
   - rewrite <- show_ls_snd. apply conformance_place; try assumption. now apply show_ls_lexemes.
   - rewrite (place_kinds (show_ls ks) gaps 0 Hl'), show_ls_fst. reflexivity.
   - apply place_no_errors.
+Qed.
+
+Lemma map_canon_nice ks : forallb nice ks = true -> map canon ks = ks.
+Proof.
+  induction ks as [|k ks IH]; [reflexivity|]. cbn [forallb map]. intros H. apply andb_true_iff in H. destruct H as [Hk H].
+  rewrite (canon_nice k Hk), (IH H). reflexivity.
 Qed.
 
 (* ================================================================================================
@@ -449,28 +610,34 @@ Qed.
 Lemma ins_after_nil u g : is_nil (ins_after u g) = is_nil g.
 Proof. destruct g as [|c g]; [reflexivity|]. rewrite ins_after_cons. destruct (c =? 10); reflexivity. Qed.
 
-Lemma iw_ins u ks : forallb gapc u = true -> forall gs, forallb nice ks = true -> inner_ok ks gs = true ->
+Lemma ins_after_starts u g : starts_nl (ins_after u g) = starts_nl g.
+Proof.
+  destruct g as [|c g]; [reflexivity|]. rewrite ins_after_cons. cbn [starts_nl].
+  destruct (c =? 10) eqn:E; cbn [app starts_nl]; [reflexivity | exact E].
+Qed.
+
+Lemma iw_ins u ks : forallb gapc u = true -> forall gs, forallb valid_kind ks = true -> inner_ok ks gs = true ->
   ins_after u (iw ks gs) = iw ks (map (ins_after u) gs) /\ inner_ok ks (map (ins_after u) gs) = true.
 Proof.
   intros Hu. induction ks as [|k ks IH]; intros gs Hn H; [discriminate H|].
   cbn [forallb] in Hn. apply andb_true_iff in Hn. destruct Hn as [Hk Hn].
   destruct ks as [|k' ks].
   - destruct gs; [|discriminate H]. cbn [iw map inner_ok]. split; [|reflexivity].
-    apply ins_after_plain. apply show_plain. exact Hk.
+    apply ins_after_plain. apply shc_plain. exact Hk.
   - destruct gs as [|g gs]; [discriminate H|]. cbn [inner_ok] in H. apply andb_true_iff in H. destruct H as [Hs H].
     destruct (IH gs Hn H) as [E1 E2]. cbn [map]. split.
-    + change (iw (k :: k' :: ks) (g :: gs)) with (sh k ++ g ++ iw (k' :: ks) gs).
-      change (iw (k :: k' :: ks) (ins_after u g :: map (ins_after u) gs)) with (sh k ++ ins_after u g ++ iw (k' :: ks) (map (ins_after u) gs)).
-      rewrite !ins_after_app, E1. rewrite (ins_after_plain u (sh k)) by (apply show_plain; exact Hk). reflexivity.
+    + change (iw (k :: k' :: ks) (g :: gs)) with (shc k ++ g ++ iw (k' :: ks) gs).
+      change (iw (k :: k' :: ks) (ins_after u g :: map (ins_after u) gs)) with (shc k ++ ins_after u g ++ iw (k' :: ks) (map (ins_after u) gs)).
+      rewrite !ins_after_app, E1. rewrite (ins_after_plain u (shc k)) by (apply shc_plain; exact Hk). reflexivity.
     + change (inner_ok (k :: k' :: ks) (ins_after u g :: map (ins_after u) gs))
         with (sepok k k' (ins_after u g) && inner_ok (k' :: ks) (map (ins_after u) gs)).
       apply andb_true_iff. split; [|exact E2]. unfold sepok in *. apply andb_true_iff in Hs. destruct Hs as [Hg Hs].
-      apply andb_true_iff. split; [exact (ins_after_gap u g Hu Hg)|]. rewrite ins_after_nil. exact Hs.
+      apply andb_true_iff. split; [exact (ins_after_gap u g Hu Hg)|]. rewrite ins_after_nil, ins_after_starts. exact Hs.
 Qed.
 
 Lemma Wv_ins u ks t : forallb gapc u = true -> Wv ks t -> Wv ks (ins_after u t).
 Proof.
-  intros Hu (gs & -> & H & Hn). destruct (iw_ins u ks Hu gs Hn H) as [E1 E2].
+  intros Hu (gs & -> & H & Hn & L). destruct (iw_ins u ks Hu gs Hn H) as [E1 E2].
   exists (map (ins_after u) gs). repeat split; assumption.
 Qed.
 
@@ -514,13 +681,6 @@ Proof.
   unfold strip_cr. rewrite rev_app_distr. cbn [rev app]. apply N.eqb_neq in H. rewrite H. reflexivity.
 Qed.
 
-Lemma last_app_ne {A} (a b : list A) d : b <> [] -> last (a ++ b) d = last b d.
-Proof.
-  intros Hb. induction a as [|x a IH]; [reflexivity|]. cbn [app]. destruct (a ++ b) as [|y r] eqn:E.
-  - apply app_eq_nil in E. destruct E as [_ E]. contradiction.
-  - change (last (y :: r) d = last b d). exact IH.
-Qed.
-
 (* the text [rest] stands behind the line fragment [l] that contains no line feed and does not end with CR;
    [tail] is what follows the woven text: nothing, or the line feed that ends its last line *)
 Section Tail.
@@ -549,46 +709,46 @@ Proof.
     rewrite <- !app_assoc. reflexivity.
 Qed.
 
-Lemma indent_iw ks : forall gs, forallb nice ks = true -> inner_ok ks gs = true ->
+Lemma indent_iw ks : forall gs, forallb valid_kind ks = true -> inner_ok ks gs = true ->
   forall l, no_nl l -> ind_goal l (iw ks gs).
 Proof.
   induction ks as [|k ks IH]; intros gs Hn H l Hl; [discriminate H|].
   cbn [forallb] in Hn. apply andb_true_iff in Hn. destruct Hn as [Hk Hn].
-  destruct (show_plain k Hk) as [Hp Hcr]. pose proof (show_nonempty k Hk) as Hne.
-  assert (Hlk : no_nl (l ++ sh k)) by (apply no_nl_app; [exact Hl | apply plain_no_nl; exact Hp]).
+  destruct (shc_plain k Hk) as [Hp Hcr]. pose proof (shc_nonempty k Hk) as Hne.
+  assert (Hlk : no_nl (l ++ shc k)) by (apply no_nl_app; [exact Hl | apply plain_no_nl; exact Hp]).
   destruct ks as [|k' ks].
   - destruct gs; [|discriminate H]. cbn [iw]. unfold ind_goal. rewrite (ins_after_plain _ _ Hp).
     destruct tail_cases as [-> | ->].
     + rewrite app_nil_r. rewrite indent_last; [rewrite <- !app_assoc; reflexivity | exact Hlk |].
       destruct l; [exact Hne | discriminate].
-    + rewrite app_assoc. rewrite (indent_line (l ++ sh k) [] Hlk). change (indent [] f) with (@nil char). rewrite strip_cr_keep.
+    + rewrite app_assoc. rewrite (indent_line (l ++ shc k) [] Hlk). change (indent [] f) with (@nil char). rewrite strip_cr_keep.
       * rewrite <- !app_assoc. reflexivity.
       * rewrite last_app_ne by exact Hne. exact Hcr.
   - destruct gs as [|g gs]; [discriminate H|]. cbn [inner_ok] in H. apply andb_true_iff in H. destruct H as [Hs H].
     unfold sepok in Hs. apply andb_true_iff in Hs. destruct Hs as [Hg _].
-    change (iw (k :: k' :: ks) (g :: gs)) with (sh k ++ g ++ iw (k' :: ks) gs).
-    assert (G : ind_goal (l ++ sh k) (g ++ iw (k' :: ks) gs)).
+    change (iw (k :: k' :: ks) (g :: gs)) with (shc k ++ g ++ iw (k' :: ks) gs).
+    assert (G : ind_goal (l ++ shc k) (g ++ iw (k' :: ks) gs)).
     { apply indent_gap.
       - exact Hlk.
       - rewrite last_app_ne by exact Hne. exact Hcr.
       - exact Hg.
       - intros l' Hl' _. apply IH; assumption. }
     unfold ind_goal in *. rewrite <- !app_assoc in G. rewrite <- !app_assoc. rewrite G.
-    rewrite (ins_after_app _ (sh k)), (ins_after_plain _ _ Hp), <- !app_assoc. reflexivity.
+    rewrite (ins_after_app _ (shc k)), (ins_after_plain _ _ Hp), <- !app_assoc. reflexivity.
 Qed.
 End Tail.
 
 (* [indent] of a woven text, with or without a final line feed *)
 Theorem indent_Wv ks t : Wv ks t -> indent t f = unit ++ ins_after unit t ++ [10].
 Proof.
-  intros (gs & -> & H & Hn).
+  intros (gs & -> & H & Hn & _).
   pose proof (indent_iw [] (or_introl eq_refl) ks gs Hn H [] ltac:(intros [])) as E.
   unfold ind_goal in E. cbn [app] in E. rewrite app_nil_r in E. exact E.
 Qed.
 
 Theorem indent_Wv_nl ks t : Wv ks t -> indent (t ++ [10]) f = unit ++ ins_after unit t ++ [10].
 Proof.
-  intros (gs & -> & H & Hn).
+  intros (gs & -> & H & Hn & _).
   pose proof (indent_iw [10] (or_intror eq_refl) ks gs Hn H [] ltac:(intros [])) as E.
   unfold ind_goal in E. cbn [app] in E. exact E.
 Qed.
